@@ -544,9 +544,8 @@ func (r *resolver) resolveRef(rs *Resolved, s *Schema, ref string) (_ *Schema, d
 		// http://foo.com/bar.json/baz, where the document is in bar.json and
 		// the reference points to a subschema within it.
 		// TODO: support that case.
-		if lrs := r.loaded[fraglessRefURI.String()]; lrs != nil {
-			referencedSchema = lrs.root
-		} else {
+		lrs := r.loaded[fraglessRefURI.String()]
+		if lrs == nil {
 			// Try to load the schema.
 			ls, err := r.opts.Loader(fraglessRefURI)
 			if err != nil {
@@ -555,18 +554,20 @@ func (r *resolver) resolveRef(rs *Resolved, s *Schema, ref string) (_ *Schema, d
 			// If the referenced schema declares no $schema, it inherits the draft of the
 			// referring document (not of the referring subschema, and without writing
 			// into the loaded schema).
-			lrs, err := r.resolve(ls, fraglessRefURI, &rs.draft)
+			lrs, err = r.resolve(ls, fraglessRefURI, &rs.draft)
 			if err != nil {
 				return nil, "", err
 			}
-			referencedSchema = lrs.root
-			assert(referencedSchema != nil, "nil referenced schema")
-			// Copy the resolvedInfos from lrs into rs, without overwriting
-			// (hence we can't use maps.Insert).
-			for s, i := range lrs.resolvedInfos {
-				if rs.resolvedInfos[s] == nil {
-					rs.resolvedInfos[s] = i
-				}
+		}
+		referencedSchema = lrs.root
+		assert(referencedSchema != nil, "nil referenced schema")
+		// Copy the resolvedInfos from lrs into rs, without overwriting
+		// (hence we can't use maps.Insert).
+		// This is needed for a document found in the cache too: it may have been
+		// loaded on behalf of another document, so rs may not know its schemas yet.
+		for s, i := range lrs.resolvedInfos {
+			if rs.resolvedInfos[s] == nil {
+				rs.resolvedInfos[s] = i
 			}
 		}
 	}
